@@ -137,7 +137,7 @@ def _work(ctx: Ctx, item):
             ctx.sample({"mode": mode, "entries": entries, "frames": len(items), "dropped": dropped, "kept": kept})
         return res
 
-    ctx.hyp(one, configs(pgns, ids), traffic.history(twins=True, time_passes=True), st.booleans(), max_examples=n, name="filters")
+    ctx.hyp(one, configs(pgns, ids), traffic.history(twins=True, time_passes=True, commanded=True), st.booleans(), max_examples=n, name="filters")
 
 
 def _twins(ctx: Ctx, item):
